@@ -27,6 +27,8 @@ type PropConfig struct {
 	// MapOrder: in the named functions, a range over a map whose body modifies one of the heaps
 	// carries the obligation len(map) <= 1 (iteration order must not be observable)
 	MapOrder *MapOrder `json:"map_order"`
+	// Uses: clauses tagged with these properties are assumed in this property's run (imports)
+	Uses []string `json:"uses"`
 }
 
 type MapOrder struct {
@@ -575,6 +577,12 @@ func cmdCheck(args []string) int {
 	}
 	for _, k := range sortedKeys(uncontr) {
 		trusted = append(trusted, "external call without contract (results arbitrary, repo heap preserved, no panic): "+k)
+	}
+	for _, u := range cfg.Uses {
+		trusted = append(trusted, "imported clauses: every requires/ensures/invariant tagged "+u+" is assumed here; those obligations are discharged by the check of "+u+" (which must pass for this result to stand)")
+	}
+	if cfg.MapOrder != nil {
+		trusted = append(trusted, "map-order obligations use the inferred frames to decide whether a loop body writes "+strings.Join(cfg.MapOrder.Heaps, ", "))
 	}
 	var kfs []string
 	for _, kf := range knownHit {
